@@ -50,10 +50,17 @@ fn clone_into_missing_directory(ctx: &mut Ctx) {
     let Some(m) = crate::props::c01::make_archive(ctx, 16 * 1024, false, None) else { return };
     let http = gen::chance(1, 3);
     let flag = *gen::t(|t| t.pick(&["--force-create", "--force-create", "--seed-output", ""]));
-    let out = *gen::t(|t| t.pick(&["nodir/out.bin", "new/sub/out.bin", "dir.d/deeper/out.bin"]));
+    // ... or in one that exists and is reached through a symbolic link and "..": the kernel
+    // resolves lnk/.. to the parent of the link's target, not to the directory the link is in
+    let out = *gen::t(|t| t.pick(&["nodir/out.bin", "new/sub/out.bin", "dir.d/deeper/out.bin", "lnk/../out.bin", "lnk/../out.bin"]));
+    let through_link = out.starts_with("lnk/");
     scen::quiet(|| {
         let _ = std::fs::remove_file("a.cba");
         let _ = std::fs::create_dir_all("dir.d");
+        if through_link {
+            let _ = std::fs::create_dir_all("elsewhere/sub");
+            let _ = std::os::unix::fs::symlink("elsewhere/sub", "lnk");
+        }
     });
     let server = if http {
         Some(scen::serve(std::sync::Arc::new(m.archive.clone())))
@@ -98,13 +105,19 @@ fn clone_into_missing_directory(ctx: &mut Ctx) {
             _ => {}
         }
     }
-    let new: Vec<&String> = after.iter().filter(|p| !before.contains(p) && p.as_str() != out).collect();
+    // (through the link the output is elsewhere/out.bin, whatever the path string looks like)
+    let resolved = if through_link { "elsewhere/out.bin" } else { out };
+    let new: Vec<&String> = after.iter().filter(|p| !before.contains(p) && p.as_str() != resolved).collect();
     let gone: Vec<&String> = before.iter().filter(|p| !after.contains(p)).collect();
     if !new.is_empty() || !gone.is_empty() {
         ctx.fail("sandbox-changed", format!("after the clone the sandbox has new entries {:?} and lost {:?}; {}", new, gone, desc));
         return;
     }
-    simkit::count("probe:clone-into-missing-directory");
+    if through_link && r.outcome.is_success() && scen::get_file("elsewhere/out.bin").as_deref() != Some(&m.source[..]) {
+        ctx.fail("sandbox-changed", format!("the clone reported success but the file the output path resolves to (elsewhere/out.bin) does not hold the source; {}", desc));
+        return;
+    }
+    simkit::count(if through_link { "probe:clone-through-symlinked-directory" } else { "probe:clone-into-missing-directory" });
     ctx.verdict.nontrivial = true;
     ctx.verdict.shape = 7_000 + out.len() as u64 * 8 + flag.len() as u64 + ((http as u64) << 10);
 }
@@ -390,6 +403,51 @@ fn run_compress(ctx: &mut Ctx) {
     }
     let temp = events.iter().find(|(op, p, a, ret)| *op == sys::Op::Open && a & libc::O_CREAT as i64 != 0 && *ret >= 0 && p != name && !p.starts_with('/') && !before.contains_key(p)).map(|(_, p, _, _)| p.clone());
     let Some(temp) = temp else { return };
+    // half of the repeats instead: removing the temporary file fails (EPERM: an append-only or
+    // sticky directory, EBUSY: a bind mount). A compress that cannot clean up may fail; it may
+    // not report success with its temporary file still there.
+    if gen::chance(1, 2) {
+        if !stdin {
+            scen::put_file("src.bin", &data);
+        }
+        scen::set_stdin(if stdin { Some(data.clone()) } else { None });
+        scen::draw_schedule();
+        let errno = *gen::t(|t| t.pick(&[libc::EPERM, libc::EBUSY, libc::EIO]));
+        let before3 = list_dir("dir.d");
+        sys::with(|s| {
+            s.log.clear();
+            s.add_fault(&temp, sys::Op::Unlink, 0, sys::FaultAction::Errno(errno));
+        });
+        let args3: Vec<std::ffi::OsString> = {
+            let mut a: Vec<std::ffi::OsString> = scen::compress_args(&spec, if stdin { None } else { Some("src.bin") }, "OUTPUT", true).into_iter().map(Into::into).collect();
+            *a.last_mut().unwrap() = name_os.clone();
+            a
+        };
+        let r3 = crate::cli::run_cli_os(&args3);
+        scen::set_stdin(None);
+        let after3 = list_dir("dir.d");
+        let fired = sys::with(|s| s.fault_fired.iter().any(|(p, _)| *p == temp || p.ends_with(&temp)));
+        if !fired {
+            return;
+        }
+        simkit::count("probe:unlink-of-temp-file-failed");
+        if matches!(r3.outcome, crate::cli::Outcome::StepBudget | crate::cli::Outcome::Deadlock) {
+            ctx.fail(&format!("compress-outcome:{}", r3.outcome.class()), format!("compress whose unlink of {:?} fails ended with {}; {}", temp, r3.outcome.short(), desc));
+            return;
+        }
+        if r3.outcome.is_success() {
+            let new: Vec<&String> = after3.keys().filter(|k| !before3.contains_key(*k)).collect();
+            if !new.is_empty() {
+                ctx.fail("leftover-files", format!("removing the temporary file {:?} failed (errno {}), yet compress reported success and left {:?} behind; {}", temp, errno, new, desc));
+                return;
+            }
+        }
+        // clean up for whatever follows in this run
+        scen::quiet(|| {
+            let _ = std::fs::remove_file(&temp);
+        });
+        return;
+    }
     scen::put_file(&temp, &vec![0x5Au8; data.len() * 2 + 4096 + gen::draw(3000) as usize]);
     if !stdin {
         scen::put_file("src.bin", &data);
